@@ -18,7 +18,9 @@ type Lin struct {
 	C    *big.Int
 }
 
-func newLin() *Lin { return &Lin{Coef: map[string]*big.Int{}, Atom: map[string]ast.Expr{}, C: new(big.Int)} }
+func newLin() *Lin {
+	return &Lin{Coef: map[string]*big.Int{}, Atom: map[string]ast.Expr{}, C: new(big.Int)}
+}
 
 func (l *Lin) addTerm(k string, e ast.Expr, c *big.Int) {
 	if cur, ok := l.Coef[k]; ok {
